@@ -16,6 +16,10 @@ HARNESS_TIMEOUT = 20
 def canon(s):
     # "rterr <line> <hexmsg> obs=…" / "cerr <line> <hexmsg>": message wording is not compared
     t = s.split(" ")
+    if t[-1].startswith("bcv="):
+        # op vmrun, model side only: verdict of the bytecode verifier (Bcv) on the real bytecode; the spec verdict carries it
+        t = t[:-1]
+        s = " ".join(t)
     if t[0] == "rterr" and len(t) >= 3 and not t[2].startswith(("obs=", "g0=")):
         return " ".join(t[:2] + t[3:])
     if t[0] == "cerr" and len(t) >= 3:
@@ -28,6 +32,9 @@ def nontrivial(c):
 
 
 def classify(c):
+    if c.spec.startswith("eq BCV-REJECTED"):
+        # the verified bytecode verifier refused the real bytecode: unbalanced stack heights or an operand out of range
+        return "bcv-rejected " + c.spec.split(" ")[2].split("@")[0]
     kind = c.impl.split(" ")[0] + "-vs-" + " ".join(c.spec.split(" ")[:2])
     return kind
 
